@@ -124,6 +124,9 @@ def run(out, tier):
     j1(out, eng, pr)
     j3(out, eng, pr)
     error_ends_path(out, eng, pr)
+    # the taken branch of a JUMPI really starts at the target: VMThread::fork puts the new thread there (any target inside the code)
+    from . import c03
+    c03.fork_obligation(out, eng, eng.explorer(), pr, oid="J3.forked_branch_starts_at_target")
     out.extra["solver_queries"] = pr.n_queries
 
 
